@@ -137,6 +137,20 @@ def pipeline_case(case):
                     exp.setdefault(item, set()).add("delete")
             doc = openapi_bulk(app_name=app, model_paths=[mp], routes_paths=rps)
         probs = document_problems(doc, {k: sorted(v) for k, v in exp.items()})
+        # "routes generated for a model, when fed back, describe that same model": what an operation says (summary, $refs)
+        # names its own model (or the shared ServerError), never another model of the document
+        all_names = {e[0] for e in entries}
+        for name, cols, pk, crud, route in entries:
+            for p_, item in doc["paths"].items():
+                if not (p_ == route or p_.startswith(route + "/{")):
+                    continue
+                for verb in sorted(set(item) & METHODS):
+                    op = item[verb]
+                    mentioned = set(re.findall(r"`(\w+)`", op.get("summary") or "")) & all_names
+                    refd = {r.rsplit("/", 1)[-1] for r in iter_refs(op)} & all_names
+                    other = sorted((mentioned | refd) - {name})
+                    if other:
+                        probs.append(("describes-other-model", "%s %s was generated for model %r but describes %s (summary %r)" % (verb.upper(), p_, name, other, op.get("summary"))))
         for name, cols, pk, crud, route in entries:
             sch = doc["components"]["schemas"].get(name)
             if sch is None:
